@@ -192,7 +192,7 @@ func (p pcPkt) op() string {
 
 // ---------------------------------------------------------------- guarded reader runs
 
-type pcRun struct {
+type pcapRun struct {
 	hdr      string  // ok eof ueof ioerr err panic
 	hdrObs   string  // full header observation
 	res      []pcRes // one per read call
@@ -215,11 +215,11 @@ func memTotal() uint64 {
 
 // runReader opens the stream with the pcap or snoop reader and calls the (zero-copy) read
 // function until an I/O-class error, a panic, or maxCalls calls.  measure: record allocation.
-func runReader(format string, zc bool, maxCalls int, rd io.Reader, measure bool) pcRun {
+func runReader(format string, zc bool, maxCalls int, rd io.Reader, measure bool) pcapRun {
 	if !measure { // benign input (C14): no time limit needed
 		return runReaderInline(format, zc, maxCalls, rd, false)
 	}
-	done := make(chan pcRun, 1)
+	done := make(chan pcapRun, 1)
 	go func() { done <- runReaderInline(format, zc, maxCalls, rd, measure) }()
 	tm := time.NewTimer(20 * time.Second)
 	defer tm.Stop()
@@ -227,11 +227,11 @@ func runReader(format string, zc bool, maxCalls int, rd io.Reader, measure bool)
 	case run := <-done:
 		return run
 	case <-tm.C:
-		return pcRun{hdr: "hang", hdrObs: "hdr=hang", hung: true}
+		return pcapRun{hdr: "hang", hdrObs: "hdr=hang", hung: true}
 	}
 }
 
-func runReaderInline(format string, zc bool, maxCalls int, rd io.Reader, measure bool) (run pcRun) {
+func runReaderInline(format string, zc bool, maxCalls int, rd io.Reader, measure bool) (run pcapRun) {
 	func() {
 		defer func() {
 			if r := recover(); r != nil {
@@ -324,7 +324,7 @@ func runReaderInline(format string, zc bool, maxCalls int, rd io.Reader, measure
 	return run
 }
 
-func (run pcRun) obs() []string {
+func (run pcapRun) obs() []string {
 	out := []string{run.hdrObs}
 	for _, r := range run.res {
 		out = append(out, r.String())
